@@ -221,9 +221,9 @@ def src(n):
         base = src(c) if c["n"] in ("var", "call", "index", "member", "list") else paren(src(c))
         return f"{base}[{expr(a[1])}]"
     if t == "compr2":
-        kind, val, id1, l1, id2, l2, cond = a
+        kind, val, id1, w1, l1, id2, w2, l2, cond = a
         sep = " for " if n["s"] == "product" else " also for "
-        tail = (f" for {id1} in {orexpr(l1)}{sep}{id2} in {orexpr(l2)}"
+        tail = (f" for {id1} in {what_src(w1, '')}{orexpr(l1)}{sep}{id2} in {what_src(w2, '')}{orexpr(l2)}"
                 + ("" if cond["n"] == "none" else " if " + orexpr(cond)))
         return ("[" + expr(val) + tail + "]") if kind == "list" else ("<< " + expr(val) + tail + " >>")
     if t == "compr":
